@@ -397,6 +397,16 @@ func (l layout) render(blocks []blockAST, split, mode int) (main string, files m
 				case 5: // likewise a zero-byte import file
 					files["imp0"] = ""
 					dl = append([]string{"import" + l.sep + "imp0"}, dl...)
+				case 6: // a glob over three files: the directive in the middle one, a comment-only file before it, an empty one after it
+					files["glob-a"] = "# only a comment\n"
+					files["glob-b"] = strings.Join(dl, "\n") + "\n"
+					files["glob-c"] = "\n"
+					dl = []string{"import" + l.sep + "glob-*"}
+				case 7: // the same with the directive in the last file
+					files["glob-a"] = "# only a comment\n"
+					files["glob-b"] = ""
+					files["glob-c"] = strings.Join(dl, "\n") + "\n"
+					dl = []string{"import" + l.sep + "glob-*"}
 				}
 			}
 			lines = append(lines, dl...)
@@ -660,7 +670,7 @@ func partB(rep *kit.Report) {
 					lay.braceNL = false
 				}
 				for split := -1; split < nd; split++ {
-					for mode := 1; mode <= 5; mode++ {
+					for mode := 1; mode <= 7; mode++ {
 						if split == -1 && mode >= 2 {
 							continue
 						}
@@ -698,13 +708,13 @@ func partB(rep *kit.Report) {
 							}
 							where := "inline"
 							if split >= 0 {
-								where = []string{"", "import-file", "snippet", "empty-snippet", "empty-import-file", "zero-byte-import-file"}[mode]
+								where = []string{"", "import-file", "snippet", "empty-snippet", "empty-import-file", "zero-byte-import-file", "glob-import", "glob-import-last"}[mode]
 							}
 							rep.Violation("C10/round-trip/"+kind+"/"+where, "parsed structure differs from the printed AST", rtCase{main, files, env, w, g, fmt.Sprintf("%+v", lay)})
 						}
 						cl := "inline"
 						if split >= 0 {
-							cl = []string{"", "import-file", "snippet", "empty-snippet", "empty-import-file", "zero-byte-import-file"}[mode]
+							cl = []string{"", "import-file", "snippet", "empty-snippet", "empty-import-file", "zero-byte-import-file", "glob-import", "glob-import-last"}[mode]
 						}
 						local[fmt.Sprintf("round-trip/%s/blocks=%d/dirs=%d", cl, len(ast), nd)]++
 					}
